@@ -29,12 +29,16 @@ type faultParams struct {
 	late    bool   // healthy nodes answer only after the fault has been processed
 	pre     bool   // the fault strikes before the call is issued
 	prior   int    // earlier stream resets of the failing nodes, each healed before the next event (history)
+	timers  bool   // a second adversary thread lets the armed back-off timers expire at any instant
 }
 
 func (p faultParams) name() string {
 	h := ""
 	if p.prior > 0 {
 		h = fmt.Sprintf("/after-%d-healed-resets", p.prior)
+	}
+	if p.timers {
+		h += "/timer-thread"
 	}
 	return fmt.Sprintf("fault/%s/n=%d/failing=%v/%s/thr=healthy+%d/late=%v/pre=%v%s", p.kind, p.n, p.failing, p.fault, p.extra, p.late, p.pre, h)
 }
@@ -221,6 +225,9 @@ func faultScenario(p faultParams) func() {
 		if active && !p.pre && !queued {
 			mc.GoLow("fault", strike)
 		}
+		if p.timers {
+			mc.GoLow("timers", func() { mc.FireTimers(nil) })
+		}
 		mc.Quiesce()
 		if p.late {
 			w.Open("healthy")
@@ -373,6 +380,12 @@ func faultInstances(tier string) []Instance {
 							}
 							p := faultParams{kind: kind, n: s.n, failing: s.failing, fault: f, extra: extra, late: late, pre: pre}
 							out = append(out, Instance{Name: p.name(), Bound: bound, Root: faultScenario(p)})
+							if bound == 2 && !thorough(tier) {
+								// the same with the back-off timers expiring at an instant of the explorer's choosing
+								pt := p
+								pt.timers = true
+								out = append(out, Instance{Name: pt.name(), Bound: 2, Root: faultScenario(pt)})
+							}
 							if s.n == 2 && len(s.failing) == 1 && !late && (f == "down" || active || f == "err-Unknown") {
 								// the same with a history of two healed stream resets on the failing node
 								p.prior = 2
